@@ -38,9 +38,16 @@ def run_shard(spec, ctx):
     mods = env.load_repo()
     if spec["kind"] == "valid":
         range_mon.install(ctx, mods)
-        workloads.run_valid(ctx, mods, spec["n"] * len(TASK_NAMES) // 13,
-                            ctx.rng("valid"), on_ret=_sampler(ctx))
-        _doubled_note_patterns(ctx, mods, ctx.rng("dups"), max(5, spec["n"] // 8))
+        import os
+        from .. import san
+        # floating-point exception traps: diagnostic only (origin of every
+        # NaN/Inf by mir_eval line), never a verdict
+        with san.FpTrap(os.path.join(env.repo_dir(), "mir_eval") + os.sep) as trap:
+            workloads.run_valid(ctx, mods, spec["n"] * len(TASK_NAMES) // 13,
+                                ctx.rng("valid"), on_ret=_sampler(ctx))
+            _doubled_note_patterns(ctx, mods, ctx.rng("dups"), max(5, spec["n"] // 8))
+        for k, v in trap.events.items():
+            ctx.hist("fp_trap_origins(diagnostic)", k, v)
     else:
         from . import w7
         from .. import valid
